@@ -89,9 +89,12 @@ static void* ArenaAlloc(size_t n, size_t align) {
   return p;
 }
 
-static void ArenaFree(void* p) {
-  (void)p;  // never reused inside one process; under ASan the block could be
-            // poisoned here, but the size is unknown; left readable.
+static void ArenaFree(void* p, size_t n) {
+  // never reused inside one process; with a known size (sized deallocation,
+  // which the standard containers use) the block is poisoned so that ASan
+  // reports a use-after-free as use-after-poison
+  if (n) ASAN_POISON_MEMORY_REGION(p, n);
+  (void)p; (void)n;
 }
 }  // namespace sim
 
@@ -105,9 +108,9 @@ static inline void* Alloc(size_t n, size_t align) {
   if (!p) { fprintf(stderr, "simninja: out of memory\n"); _exit(2); }
   return p;
 }
-static inline void Free(void* p) {
+static inline void Free(void* p, size_t n = 0) {
   if (!p) return;
-  if (sim::InArena(p)) { sim::ArenaFree(p); return; }
+  if (sim::InArena(p)) { sim::ArenaFree(p, n); return; }
   free(p);
 }
 
@@ -119,11 +122,11 @@ void* operator new(size_t n, std::align_val_t a) { return Alloc(n, (size_t)a); }
 void* operator new[](size_t n, std::align_val_t a) { return Alloc(n, (size_t)a); }
 void operator delete(void* p) noexcept { Free(p); }
 void operator delete[](void* p) noexcept { Free(p); }
-void operator delete(void* p, size_t) noexcept { Free(p); }
-void operator delete[](void* p, size_t) noexcept { Free(p); }
+void operator delete(void* p, size_t n) noexcept { Free(p, n); }
+void operator delete[](void* p, size_t n) noexcept { Free(p, n); }
 void operator delete(void* p, const std::nothrow_t&) noexcept { Free(p); }
 void operator delete[](void* p, const std::nothrow_t&) noexcept { Free(p); }
 void operator delete(void* p, std::align_val_t) noexcept { Free(p); }
 void operator delete[](void* p, std::align_val_t) noexcept { Free(p); }
-void operator delete(void* p, size_t, std::align_val_t) noexcept { Free(p); }
-void operator delete[](void* p, size_t, std::align_val_t) noexcept { Free(p); }
+void operator delete(void* p, size_t n, std::align_val_t) noexcept { Free(p, n); }
+void operator delete[](void* p, size_t n, std::align_val_t) noexcept { Free(p, n); }
